@@ -2,6 +2,7 @@ package rules
 
 import (
 	"fmt"
+	"go/types"
 	"sort"
 	"strings"
 
@@ -349,5 +350,235 @@ func c04AllCandidates(c *Ctx, rule string) {
 	}
 	if n == 0 {
 		c.R.Break(rule + ": no guard loop found in Branch.try")
+	}
+}
+
+// c14Loop: C14-R10.  The crew's loop presents each received message once and hands every result on: ProcessMsg has one
+// call site in Crew.Loop (with its helpers), outside any loop nested in the receive loop, and on the way from that
+// call to the send on the output channel the only condition is that ProcessMsg reported no error (what the result
+// contains does not decide whether the host gets it: a result without changes can still carry emitted messages).
+func c14Loop(c *Ctx, rule string) {
+	loop := c.P.Func("sio", "Crew", "Loop")
+	pm := c.P.Func("sio", "Crew", "ProcessMsg")
+	if loop == nil || pm == nil {
+		c.R.Break(rule + ": sio.(*Crew).Loop or ProcessMsg not found")
+		return
+	}
+	c.R.Fn(fname(loop))
+	scope := []*ssa.Function{loop}
+	for _, f := range pkgClosure(loop) {
+		if f != loop && f != pm && prog.PkgOf(f) == "sio" && !inClosure(pm, f) {
+			scope = append(scope, f)
+		}
+	}
+	var calls []*ssa.Call
+	for _, f := range scope {
+		ssau.Instrs(f, func(in ssa.Instruction) {
+			if cl, ok := in.(*ssa.Call); ok && cl.Common().StaticCallee() == pm {
+				calls = append(calls, cl)
+			}
+		})
+	}
+	okOne := len(calls) == 1
+	why := fmt.Sprintf("%d calls of ProcessMsg in Crew.Loop", len(calls))
+	if okOne {
+		cl := calls[0]
+		loops := flow.Loops(cl.Parent())
+		L := flow.InnermostLoop(loops, cl.Block())
+		// the receive loop is the outermost loop around the call; the call must not be in a loop nested in it
+		for _, l2 := range loops {
+			if L != nil && l2 != L && l2.Blocks[cl.Block()] && len(l2.Blocks) > len(L.Blocks) {
+				okOne = false
+				why = "ProcessMsg is called in a loop inside the receive loop (" + c.pos(cl) + ")"
+			}
+		}
+		if cl.Parent() != loop && flow.InCycle(cl.Block()) {
+			okOne = false
+			why = "ProcessMsg is called in a loop of a helper (" + c.pos(cl) + ")"
+		}
+	}
+	at := c.P.Pos(loop.Pos())
+	if len(calls) > 0 {
+		at = c.pos(calls[0])
+	}
+	c.R.Check(okOne, rule, "Crew.Loop: a received message is processed once", at, "one call of ProcessMsg, not in an inner loop", why+": a message that failed (after the machines had already consumed it) or any message is presented to the machines again")
+	if len(calls) != 1 {
+		return
+	}
+	cl := calls[0]
+	var errv ssa.Value
+	for _, r := range ssau.Referrers(cl) {
+		if ex, ok := r.(*ssa.Extract); ok && ex.Index == 1 {
+			errv = ex
+		}
+	}
+	before := map[flow.Fact]bool{}
+	for _, ft := range flow.FactsAt(cl.Block()) {
+		before[ft] = true
+	}
+	n := 0
+	ssau.Instrs(cl.Parent(), func(in ssa.Instruction) {
+		sd, ok := in.(*ssa.Send)
+		if !ok || !ssau.TypeIs(sd.X.Type(), prog.Abs("sio"), "Result") {
+			return
+		}
+		n++
+		var bad []string
+		for _, ft := range flow.FactsAt(sd.Block()) {
+			if before[ft] {
+				continue
+			}
+			if bo, isB := ft.Cond.(*ssa.BinOp); isB && ssau.IsNilConst(bo.Y) && bo.X == errv {
+				continue
+			}
+			bad = append(bad, ft.Cond.String()+" ("+c.pos(ft.If)+")")
+		}
+		c.R.Check(len(bad) == 0, rule, fmt.Sprintf("Crew.Loop: result hand-over #%d depends only on ProcessMsg's error", n), c.pos(sd), "between ProcessMsg and the send on the output channel only 'err == nil' is tested", "whether the host gets a result also depends on "+strings.Join(bad, ", ")+": messages that machines emitted are not reported when that test fails")
+	})
+	if n == 0 {
+		c.R.Violate(rule, "Crew.Loop: results are handed to the output coupling", c.pos(cl), "no send of the result on a channel found in the function that calls ProcessMsg")
+	}
+}
+
+func inClosure(root, f *ssa.Function) bool {
+	for _, g := range pkgClosure(root) {
+		if g == f {
+			return true
+		}
+	}
+	return false
+}
+
+// c13ParseAlways: C13-R1.  ParsePatterns brings every pattern into canonical form whatever syntax the spec declares:
+// no successful return of ParsePatterns is decided by the value of Spec.PatternSyntax ("none" is also what an author
+// can declare for patterns given as Go or YAML structures, which still have to be canonicalised).
+func c13ParseAlways(c *Ctx, rule string) {
+	pp := c.P.Func("core", "Spec", "ParsePatterns")
+	if pp == nil {
+		c.R.Break(rule + ": core.(*Spec).ParsePatterns not found")
+		return
+	}
+	n := 0
+	for _, b := range pp.Blocks {
+		ret, ok := b.Instrs[len(b.Instrs)-1].(*ssa.Return)
+		if !ok || len(ret.Results) != 1 {
+			continue
+		}
+		for _, d := range phiEdgesWithBlocks(ret.Results[0], b) {
+			if !ssau.IsNilConst(d.v) {
+				continue
+			}
+			n++
+			bad := ""
+			for _, ft := range flow.Expand(flow.FactsAt(d.b)) {
+				bo, isB := ft.Cond.(*ssa.BinOp)
+				if !isB {
+					continue
+				}
+				for _, opd := range []ssa.Value{bo.X, bo.Y} {
+					if _, is := isFieldLoad(opd, "core", "Spec", "PatternSyntax"); is {
+						bad = c.pos(ft.If)
+					}
+				}
+			}
+			c.R.Check(bad == "", rule, fmt.Sprintf("ParsePatterns: successful return #%d does not depend on the declared syntax", n), c.pos(ret), "no test of Spec.PatternSyntax on the way", "ParsePatterns returns successfully because of the value of PatternSyntax ("+bad+") without having canonicalised the patterns: a spec that declares that syntax (or a reloaded compiled spec) keeps Go ints, typed maps and the like in its patterns, which the matcher does not recognise")
+		}
+	}
+	if n == 0 {
+		c.R.Break(rule + ": ParsePatterns has no successful return")
+	}
+}
+
+// c13FindTypedNil: C13-R4.  "Unknown interpreters are rejected at compile time": ActionSource.Compile rejects a nil
+// Interpreter, so every implementation of core.Interpreters in the repository has to answer the nil interface for a
+// name it does not know.  A pointer taken from a map without the ok flag and boxed into the interface is never the
+// nil interface (a typed nil), so the unknown name is accepted and the machine fails (or crashes) at run time.
+func c13FindTypedNil(c *Ctx, rule string) {
+	n := 0
+	for _, f := range c.P.AllFuncs {
+		if f.Blocks == nil || f.Name() != "Find" || f.Signature.Recv() == nil || prog.PkgOf(f) == "" {
+			continue
+		}
+		res := f.Signature.Results()
+		if res.Len() != 1 || !ssau.TypeIs(res.At(0).Type(), prog.Abs("core"), "Interpreter") {
+			continue
+		}
+		c.R.Fn(fname(f))
+		for _, b := range f.Blocks {
+			ret, ok := b.Instrs[len(b.Instrs)-1].(*ssa.Return)
+			if !ok || len(ret.Results) != 1 {
+				continue
+			}
+			for _, d := range phiEdgesWithBlocks(ret.Results[0], b) {
+				n++
+				bad := ""
+				if mi, isMI := d.v.(*ssa.MakeInterface); isMI {
+					if _, isPtr := mi.X.Type().Underlying().(*types.Pointer); isPtr {
+						switch x := mi.X.(type) {
+						case *ssa.Lookup:
+							if !x.CommaOk {
+								bad = c.pos(x)
+							}
+						case *ssa.Extract:
+							if lk, isLk := x.Tuple.(*ssa.Lookup); isLk && x.Index == 0 {
+								guarded := false
+								for _, ft := range flow.FactsAt(d.b) {
+									if ex, isEx := ft.Cond.(*ssa.Extract); isEx && ex.Tuple == ssa.Value(lk) && ex.Index == 1 && ft.True {
+										guarded = true
+									}
+									if bo, isB := ft.Cond.(*ssa.BinOp); isB && ssau.IsNilConst(bo.Y) && bo.X == ssa.Value(x) && ((bo.Op.String() == "!=" && ft.True) || (bo.Op.String() == "==" && !ft.True)) {
+										guarded = true
+									}
+								}
+								if !guarded {
+									bad = c.pos(lk)
+								}
+							}
+						}
+					}
+				}
+				c.R.Check(bad == "", rule, fmt.Sprintf("%s: answer #%d for an unknown name is the nil interface", fname(f), n), c.pos(ret), "no pointer from an unchecked map lookup is boxed into the result", "the registry boxes the pointer it finds in its map ("+bad+") without checking that the name was there: for an unknown name the result is a non-nil interface holding a nil pointer, ActionSource.Compile accepts it, and the machine fails when it reaches the node")
+			}
+		}
+	}
+	if n == 0 {
+		c.R.Break(rule + ": no implementation of core.Interpreters.Find found")
+	}
+}
+
+// c12CompiledBinding: C12-R12.  A compiled action is bound to the interpreter that compiled it: the function that
+// package core installs as FuncAction.F does not look the interpreter up again when it runs (a lookup at run time reads
+// a table the host may be changing, and hands a program compiled by one interpreter to another).
+func c12CompiledBinding(c *Ctx, rule string) {
+	n := 0
+	for _, f := range c.P.FuncsIn("core") {
+		for _, st := range storesTo(f, "FuncAction", "F") {
+			var g *ssa.Function
+			switch x := st.Val.(type) {
+			case *ssa.MakeClosure:
+				g, _ = x.Fn.(*ssa.Function)
+			case *ssa.Function:
+				g = x
+			}
+			if g == nil || g.Blocks == nil {
+				continue
+			}
+			n++
+			bad := ""
+			for _, h := range append([]*ssa.Function{g}, pkgClosure(g)...) {
+				if prog.PkgOf(h) != "core" {
+					continue
+				}
+				ssau.Instrs(h, func(in ssa.Instruction) {
+					if ci, ok := in.(ssa.CallInstruction); ok && ci.Common().IsInvoke() && ci.Common().Method.Name() == "Find" && ssau.TypeIs(ci.Common().Value.Type(), prog.Abs("core"), "Interpreters") {
+						bad = c.pos(in)
+					}
+				})
+			}
+			c.R.Check(bad == "", rule, fmt.Sprintf("%s: the installed action #%d runs with the interpreter that compiled it", fname(f), n), c.pos(st), "no lookup in core.Interpreters when the action runs", "the compiled action looks its interpreter up again each time it runs ("+bad+"): processing then reads a table the host may be changing (a data race), and a replaced entry is handed the program another interpreter compiled")
+		}
+	}
+	if n == 0 {
+		c.R.Break(rule + ": package core installs no FuncAction.F")
 	}
 }
